@@ -121,6 +121,14 @@ func buildC01(tier string, seed int64) *Family {
 	// position paths with one- and two-digit sibling indices (C11's identity kernel, element case)
 	insts = append(insts, &vm.Instance{ID: "identity kernel: element vs element on position paths with one- and two-digit indices", Harness: "H_identity",
 		Params: map[string]string{"abstracthash": "1", "kindx": "0", "kindy": "0"}})
+	// prefixed and unprefixed name tests in one path (no namespace map: literal prefixes)
+	pcfg := docCfg{N: 4, A: 1, Names: "a,b", Pool: ","}
+	for _, x := range []string{"p:a/b", "/p:a/a", "//p:a//b", "p:a/@a", "ancestor::p:a/child::a", "p:a/p:b/a", "@p:a/../a", "//p:b/*", "descendant::p:a/a", "a/p:a/a"} {
+		in := nodesetInst(x, pcfg)
+		in.ID += " prefixed"
+		in.Params["prefixes"] = ",p"
+		insts = append(insts, in)
+	}
 	fam := &Family{
 		Instances: withReuse(dedupInst(insts), 1),
 		Canaries: []*vm.Instance{
